@@ -2,6 +2,8 @@ package props
 
 import (
 	"fmt"
+	"os"
+	"path/filepath"
 
 	"verif/harness/core"
 	"verif/harness/mon"
@@ -108,6 +110,12 @@ func (c02) Run(c core.Case, w *core.Worker) core.Result {
 	}
 	res := core.Result{}
 	dir := w.Dir("db")
+	if c.Index%4 == 2 {
+		// a directory (and a parent directory) named with glob / format / shell metacharacters
+		dir = filepath.Join(w.Dir(core.HostileName(c.Index/4)), core.HostileName(c.Index/4+5))
+		os.MkdirAll(filepath.Dir(dir), 0755)
+		res.Add("cases_with_metacharacters_in_the_path", 1)
+	}
 	io := mon.NewIOLog()
 	ioObserver(io, dir, &res)
 	defer io.Install()()
